@@ -31,7 +31,8 @@ class _Instr:
     sim_kind = "?"
     sim_flavour = None
 
-    def _sim_init(self, name, hb, fail_init, fail_after, fail_kind):
+    def _sim_init(self, name, hb, fail_init, fail_after, fail_kind, park=False):
+        self.sim_park = park
         self.sim_name = name
         self.sim_hb = hb
         self.sim_fail_after = fail_after
@@ -100,6 +101,13 @@ class _Instr:
         t0 = S.now
         k = 0
         try:
+            if self.sim_park and self.sim_fail_after is None:
+                # the "run until cancelled" idiom: wait on an awaitable only this coroutine references
+                h.ev("hb", self.sim_name, k=0)
+                if self.sim_flavour == "asyncio":
+                    await asyncio.get_running_loop().create_future()
+                else:
+                    await trio.sleep_forever()
             while True:
                 if self.sim_fail_after is not None and S.now - t0 >= self.sim_fail_after - 1e-9:
                     self._sim_fail()
@@ -119,9 +127,9 @@ class _Instr:
 class _PoolBase(Pool, _Instr):
     sim_kind = "pool"
 
-    def __init__(self, name="pool", hb=0.5, fail_init=False, fail_after=None, fail_kind=None):
+    def __init__(self, name="pool", hb=0.5, fail_init=False, fail_after=None, fail_kind=None, park=False):
         self._demand = 0.0
-        self._sim_init(name, hb, fail_init, fail_after, fail_kind)
+        self._sim_init(name, hb, fail_init, fail_after, fail_kind, park)
 
     supply = 4.0
     utilisation = 0.75
@@ -140,17 +148,17 @@ class _PoolBase(Pool, _Instr):
 class _DecoBase(PoolDecorator, _Instr):
     sim_kind = "decorator"
 
-    def __init__(self, target, name="deco", hb=0.5, fail_init=False, fail_after=None, fail_kind=None):
+    def __init__(self, target, name="deco", hb=0.5, fail_init=False, fail_after=None, fail_kind=None, park=False):
         super().__init__(target)
-        self._sim_init(name, hb, fail_init, fail_after, fail_kind)
+        self._sim_init(name, hb, fail_init, fail_after, fail_kind, park)
 
 
 class _CtrlBase(Controller, _Instr):
     sim_kind = "controller"
 
-    def __init__(self, target, name="ctrl", hb=0.5, fail_init=False, fail_after=None, fail_kind=None):
+    def __init__(self, target, name="ctrl", hb=0.5, fail_init=False, fail_after=None, fail_kind=None, park=False):
         super().__init__(target)
-        self._sim_init(name, hb, fail_init, fail_after, fail_kind)
+        self._sim_init(name, hb, fail_init, fail_after, fail_kind, park)
 
 
 def _variants(base, prefix):
